@@ -4,7 +4,7 @@ import MosnVerif.Lemmas.PoolSpec
 
 All theorems are about `Model/Pool.lean` (HTTP/1 pool and xprotocol ping-pong pool, both `Kind`s), whose decisions are
 the regenerated functions of `Gen/Pool.lean`, and hold for EVERY pool configuration (`maxConn`, `maxReq`), EVERY list
-of operations {new stream (connect ok | fails), response (with/without `Connection: close`), garbage reply, local
+of operations {new stream (connect ok | refused | timed out), response (with/without `Connection: close`), garbage reply, local
 reset, late reset of a finished stream, go-away, unknown-id reply, connection close by either side, Shutdown, Close,
 load on the shared requests breaker from other pools} and every intermediate state (`reach`).
 -/
@@ -115,23 +115,34 @@ theorem clean_history (k : Kind) (maxConn maxReq : Nat) (ops : List Op) (i : Nat
 
 /-- **no_leak**, first half: a refused or failed `NewStream` (requests breaker full, connection limit reached,
 connect failure) leaves the whole state — books and truth — exactly as it was. Holds in every state. -/
-theorem no_leak (s : State) (connectFails : Bool) (h : (newStream s connectFails).2.isOk = false) :
-    (newStream s connectFails).1 = s := newStream_refused s connectFails h
+theorem no_leak (s : State) (dial : Dial) (h : (newStream s dial).2.isOk = false) :
+    (newStream s dial).1 = s := newStream_refused s dial h
+
+/-- `no_leak` for a failed dial spelled out: when no idle connection exists the call dials; whether the connect is
+refused (`api.ConnectFailed`) or times out (`api.ConnectTimeout`) the call is not granted and the slot it took for the
+new connection is free again (`totalClientCount` and everything else exactly as before). The counter movements of the
+failure branch and of both event branches are regenerated (`h1DialFailDelta`, `ppDialFailDelta`). -/
+theorem dial_failure_releases_slot (s : State) (dial : Dial) (hf : dial.fails = true) (hidle : s.idle = []) :
+    (newStream s dial).2.isOk = false ∧ (newStream s dial).1 = s := by
+  have h1 : (newStream s dial).2.isOk = false := by
+    rw [newStream_isOk, acquire_isOk, hidle]
+    simp [hf]
+  exact ⟨h1, newStream_refused s dial h1⟩
 
 /-- **no_leak**, second half (capacity comes back): in every reachable state a lease is granted exactly when the
 requests breaker has room and fewer than `maxConn` connections are really leased (and a connection can be had).
 Capacity therefore depends only on the truth, never on history: whatever finished, failed or was refused before. -/
-theorem capacity_restored (k : Kind) (maxConn maxReq : Nat) (ops : List Op) (connectFails : Bool) :
+theorem capacity_restored (k : Kind) (maxConn maxReq : Nat) (ops : List Op) (dial : Dial) :
     let s := reach k maxConn maxReq ops
-    (newStream s connectFails).2.isOk = true ↔
+    (newStream s dial).2.isOk = true ↔
       ((maxReq = 0 ∨ s.ext + s.liveCount < maxReq) ∧ (maxConn = 0 ∨ s.liveCount < maxConn) ∧
-       (connectFails = false ∨ s.idle ≠ [])) := by
+       (dial.fails = false ∨ s.idle ≠ [])) := by
   intro s
   have h : Inv s := reach_inv k maxConn maxReq ops
   have hk : s.maxConn = maxConn ∧ s.maxReq = maxReq := by
     have := run_cfg (init k maxConn maxReq) ops
     exact ⟨this.2.1, this.2.2⟩
-  have := granted_iff s h connectFails
+  have := granted_iff s h dial
   rw [hk.1, hk.2] at this
   exact this
 
@@ -154,24 +165,29 @@ theorem destroy_once (k : Kind) (maxConn maxReq : Nat) (ops : List Op) (i : Nat)
 theorem spec_holds_on_model (k : Kind) (maxConn maxReq : Nat) (ops : List Op) :
     let s := reach k maxConn maxReq ops
     obsSpec s.maxReq s.ext (obsOf s) = true ∧
-    ∀ f, newStreamSpec s.maxConn s.maxReq s.ext f (obsOf s) (newStream s f).2.isOk (obsOf (newStream s f).1) = true := by
+    ∀ f : Dial, newStreamSpec s.maxConn s.maxReq s.ext f.fails (obsOf s) (newStream s f).2.isOk (obsOf (newStream s f).1) = true := by
   intro s
   have h : Inv s := reach_inv k maxConn maxReq ops
   exact ⟨obsSpec_holds s h, fun f => newStreamSpec_holds s h f⟩
 
 /-! ### non-vacuity: concrete histories reaching the interesting states -/
 -- reuse after a clean exchange: the same connection serves the second request
-example : ((trace (init .h1 1 1) [.newStream false, .response 0 false, .newStream false]).map (·.1)) =
+example : ((trace (init .h1 1 1) [.newStream .ok, .response 0 false, .newStream .ok]).map (·.1)) =
     [.ok 0, .none, .ok 0] := by decide
 -- local reset: the connection is closed, the next request gets a new one; books are back to 1
-example : let s := reach .pp 1 0 [.newStream false, .localReset 0, .newStream false]
+example : let s := reach .pp 1 0 [.newStream .ok, .localReset 0, .newStream .ok]
     (s.client 0).netOpen = false ∧ s.idle = [] ∧ s.total = 1 ∧ (s.stream 1).conn = 1 := by decide
 -- requests breaker full (held by another pool): refusal, no connection made, capacity back after release
-example : ((trace (init .h1 2 1) [.extInc, .newStream false, .extDec, .newStream false]).map (·.1)) =
+example : ((trace (init .h1 2 1) [.extInc, .newStream .ok, .extDec, .newStream .ok]).map (·.1)) =
     [.none, .overflow, .none, .ok 0] := by decide
-example : (reach .h1 2 1 [.extInc, .newStream false]).nClients = 0 := by decide
+example : (reach .h1 2 1 [.extInc, .newStream .ok]).nClients = 0 := by decide
+-- max_connections dial timeouts in a row, then a dial that succeeds: the slots were all given back
+example : ((trace (init .h1 2 0) [.newStream .timeout, .newStream .timeout, .newStream .timeout, .newStream .ok, .newStream .refused, .newStream .ok]).map (·.1)) =
+    [.connFail true, .connFail true, .connFail true, .ok 0, .connFail false, .ok 1] := by decide
+example : (reach .h1 2 0 [.newStream .timeout, .newStream .timeout]).total = 0 := by decide
+example : (reach .pp 1 0 [.newStream .timeout, .newStream .refused]).total = 0 := by decide
 -- connection limit reached, then freed by a remote close of the leased connection
-example : ((trace (init .pp 1 0) [.newStream false, .newStream false, .connClose 0 true, .newStream false]).map (·.1)) =
+example : ((trace (init .pp 1 0) [.newStream .ok, .newStream .ok, .connClose 0 true, .newStream .ok]).map (·.1)) =
     [.ok 0, .overflow, .none, .ok 1] := by decide
 
 end MosnVerif.Props.C09
